@@ -62,7 +62,8 @@ def spec_universe(tier):
 
 
 DEFAULTS = ["[]", "{}", "set()", "([],)", "{'k': []}", "[[1]]"]
-DECL_KINDS = ["schema-plain", "schema-field", "schema-factory", "dataclass-plain", "dataclass-field", "func-plain", "func-param"]
+DECL_KINDS = ["schema-plain", "schema-field", "schema-factory", "dataclass-plain", "dataclass-field", "func-plain", "func-param",
+              "schema-defer", "schema-defer-options", "dataclass-defer", "schema-defer-factory"]
 
 
 def bounds(tier):
@@ -157,6 +158,18 @@ def decl_source(kind, dexpr):
         return f"D = {dexpr}\nclass S(DataClass):\n    a: Any = D\ndef new():\n    return S()\nget = lambda r: r.a\n"
     if kind == "dataclass-field":
         return f"D = {dexpr}\nclass S(DataClass):\n    a: Any = Field(default=D)\ndef new():\n    return S()\nget = lambda r: r.a\n"
+    if kind == "schema-defer":
+        return (f"D = {dexpr}\nclass S(Schema):\n    a: Any = Field(default=D, defer_default=True)\ndef new():\n    return S()\n"
+                "get = lambda r: r.a\n")
+    if kind == "schema-defer-options":
+        return (f"D = {dexpr}\nclass S(Schema):\n    __options__ = Options(defer_default=True)\n    a: Any = D\ndef new():\n    return S()\n"
+                "get = lambda r: r.a\n")
+    if kind == "dataclass-defer":
+        return (f"D = {dexpr}\nclass S(DataClass):\n    a: Any = Field(default=D, defer_default=True)\ndef new():\n    return S()\n"
+                "get = lambda r: r.a\n")
+    if kind == "schema-defer-factory":
+        return (f"D = {dexpr}\nclass S(Schema):\n    a: Any = Field(default_factory=lambda: D, defer_default=True)\ndef new():\n"
+                "    return S()\nget = lambda r: r.a\n")
     if kind == "func-plain":
         return f"D = {dexpr}\n@utype.parse\ndef F(a: Any = D, n: int = 0):\n    return a\ndef new():\n    return F()\nget = lambda r: r\n"
     if kind == "func-param":
@@ -186,7 +199,7 @@ def _defaults(acc, kind, di, tier):
     maxlen = 5 if tier == "thorough" else 4
     src = decl_source(kind, dexpr)
     declared = canon(ev(dexpr))
-    factory = kind == "schema-factory"
+    factory = kind in ("schema-factory", "schema-defer-factory")
     for n in range(1, maxlen + 1):
         for hist in itertools.product(("new", "mut-first", "mut-last"), repeat=n):
             if hist[0] != "new":
@@ -209,7 +222,8 @@ def _defaults(acc, kind, di, tier):
                 elif results:
                     idx = 0 if op == "mut-first" else len(results) - 1
                     mutate_all_levels(env["get"](results[idx]))
-                    touched.add(idx)
+                    if "defer" not in kind:
+                        touched.add(idx)       # (a deferred default is documented to yield a new object on every access)
                 # invariant
                 for j, r in enumerate(results):
                     if j in touched:
@@ -261,6 +275,25 @@ class S(Schema):
 def F(a: int, *args: PositiveInt, u: Union[date, int] = 0, **kw: int):
     return a, args, u, kw
 LST = T(List[PositiveInt])
+@utype.parse
+def G(a: int, *rest: PositiveInt) -> Generator[int, None, None]:
+    yield a
+    for r in rest:
+        yield r
+@utype.parse
+async def CO(a: int, b: PositiveInt = 1) -> int:
+    return a + b
+@utype.parse
+async def AG(a: PositiveInt) -> AsyncGenerator[int, None]:
+    yield a
+    yield '2'
+def drain(agen):
+    out = []
+    while True:
+        try:
+            out.append(run_coro(agen.__anext__()))
+        except StopAsyncIteration:
+            return out
 '''
 CALL_KINDS = [
     ("schema-ok", "S(a='1', u=['2', 3], i={'w': 4}, x='a')"),
@@ -272,6 +305,13 @@ CALL_KINDS = [
     ("func-fail", "F('1', -2)"),
     ("rule-exclude", "type_transform([1, -1, 'x', '2'], LST, options=Options(invalid_items='exclude'))"),
     ("rule-fail", "LST([1, -1])"),
+    ("gen-ok", "list(G('1', '2', 3))"),
+    ("gen-fail", "list(G('1', -2))"),
+    ("gen-fail-first", "list(G('x'))"),
+    ("coro-ok", "run_coro(CO('1', '2'))"),
+    ("coro-fail", "run_coro(CO(1, -1))"),
+    ("agen-ok", "drain(AG('3'))"),
+    ("agen-fail", "drain(AG(-3))"),
 ]
 _SEQ = [0]
 
@@ -285,6 +325,8 @@ def fresh_env():
     mod.__dict__.update(_NS)
     mod.__dict__["__name__"] = mod.__name__
     sys.modules[mod.__name__] = mod
+    from .c08 import run_coro
+    mod.__dict__["run_coro"] = run_coro
     exec(TYPES_SRC, mod.__dict__)
     return mod
 
